@@ -1,11 +1,13 @@
 package c04
 
+import "verif/harness/vlib/proto"
+
 // isFree reports whether an alteration of the given leaf class is one the protocol cannot and
 // need not detect (a value the sender may legitimately choose afresh at that point, or one whose
 // alteration leaves the run consistent). Everything not listed is bound.
-func isFree(scenario, round string, broadcast bool, class, op string) (bool, string) {
+func isFree(sc *scenario, sl slot, class, op string) (bool, string) {
 	for _, e := range freeList {
-		if e.match(scenario, round, broadcast, class, op) {
+		if e.match(sc.name, sl.round, sl.broadcast, class, op) && (e.from == 0 || e.from == sl.from) {
 			return true, e.why
 		}
 	}
@@ -14,9 +16,10 @@ func isFree(scenario, round string, broadcast bool, class, op string) (bool, str
 
 type freeEntry struct {
 	scenarioPrefix string
-	round          string // "" = any
-	class          string // "" = any; exact class otherwise
-	op             string // "" = any
+	round          string   // "" = any
+	class          string   // "" = any; exact class otherwise
+	op             string   // "" = any
+	from           proto.ID // 0 = any sender
 	why            string
 }
 
